@@ -429,6 +429,7 @@ func checkC16(r *core.Run) {
 	c16Delegates(r)
 	r.Floor("C16.notraffic", 25)
 	r.Floor("C16.forward", 20)
+	c16NoStateOutside(r)
 	r.Floor("C16.noextra", 1)
 	r.Floor("C16.execctx", 4)
 }
@@ -900,5 +901,64 @@ func c16Delegates(r *core.Run) {
 	}
 	if n < 10 {
 		r.Bad("C16.forward", "INSTANCE-FLOOR exits of statement entries", "", "fewer statement-entry exits than confirmed by hand")
+	}
+}
+
+// c16NoStateOutside (C16.noextra): a connection method that asks tm.IsGlobalTx for the context of the call keeps no
+// state of its own on the path where the answer is no: it assigns no field of the connection there. What the proxy
+// remembers outside a global transaction (a transaction handle, a context) is acted on later by its own clean-up
+// paths — statements the application never issued.
+func c16NoStateOutside(r *core.Run) {
+	w := r.W
+	n := 0
+	for _, f := range w.SortedFuncs() {
+		if f.Pkg.PkgPath != pDSSQL || w.IsTestFile(f.Decl.Pos()) || f.Decl.Body == nil {
+			continue
+		}
+		rn := core.RecvNamed(f.Obj)
+		rv := recvVarOf(f)
+		if rn == nil || rv == nil || !inSet(rn.Obj().Name(), "XAConn", "ATConn", "Conn") {
+			continue
+		}
+		asks := false
+		for _, cs := range w.Calls(f) {
+			if core.IsPkgFunc(cs.Static, pTM, "IsGlobalTx") {
+				asks = true
+			}
+		}
+		if !asks {
+			continue
+		}
+		res := (&flow.Spec{W: w, Depth: 0, Inline: -1, Split: []flow.Tag{"false:isglobal", "true:isglobal"},
+			Classify: func(pkg *packages.Package, call *ast.CallExpr, callee *types.Func) []flow.Tag {
+				if core.IsPkgFunc(callee, pTM, "IsGlobalTx") {
+					return []flow.Tag{"isglobal"}
+				}
+				return nil
+			},
+			AssignTags: func(pkg *packages.Package, as *ast.AssignStmt) []flow.Tag {
+				for _, l := range as.Lhs {
+					if sel, ok := ast.Unparen(l).(*ast.SelectorExpr); ok && core.ObjOf(pkg.TypesInfo, sel.X) == rv {
+						if v, ok := pkg.TypesInfo.Uses[sel.Sel].(*types.Var); ok && v.IsField() {
+							return []flow.Tag{"recvwrite"}
+						}
+					}
+				}
+				return nil
+			}}).Analyze(f)
+		n++
+		r.Fn(f)
+		r.Sites++
+		bad := ""
+		for _, ap := range res.Assigns {
+			if inSet("recvwrite", ap.Tags...) && ap.Before.Has("false:isglobal") {
+				bad = core.ExprString(ap.Stmt.Lhs[0]) + " at " + w.Pos(ap.Stmt.Pos())
+			}
+		}
+		r.Check(bad == "", "C16.noextra", core.ShortKey(f.Obj)+" keeps no connection state outside a global transaction", w.Pos(f.Decl.Pos()), "no receiver field is assigned where IsGlobalTx answered false",
+			"outside a global transaction the method stores "+bad+": the connection's own error / panic handling later acts on what it remembered (e.g. rolls the application's local transaction back when one statement fails), which the bare driver never does")
+	}
+	if n == 0 {
+		r.Bad("C16.noextra", "connection methods that ask tm.IsGlobalTx", "", "none found")
 	}
 }
